@@ -135,6 +135,10 @@ class Scenario:
         if self.profile == "c16d":
             o["dlimit"] = dict(self.dlimit)
         self.o = o
+        # the scenario may end with a closing handshake begun right behind queued sends (everything sent before must arrive)
+        self.closer = ""
+        if self.profile in ("c01", "c12") and not self.limit_who and not self.frame_limit and not any(o["limit"].values()) and rng.random() < 0.3:
+            self.closer = rng.choice(["C", "S"])
         self.pair = wsx.Pair(sopts=sopts, copts=copts)
         self.only_who = None
         self.no_net = False
@@ -153,7 +157,7 @@ class Scenario:
         self.pair.st.read_pos = len(self.pair.st.written)
         self.pair.ct.read_pos = len(self.pair.ct.written)
         del self.pair.log[:]
-        self.trace.append(dict(ev="open", compress=o["compress"], limit=o["limit"], mask=o["mask"], dlimit=o["dlimit"]))
+        self.trace.append(dict(ev="open", compress=o["compress"], limit=o["limit"], mask=o["mask"], dlimit=o["dlimit"], closer=self.closer))
 
     def setup_early(self):
         """the server starts talking as soon as it has accepted the request: its first messages reach the client in the
@@ -167,7 +171,7 @@ class Scenario:
         resp = bytes(self.pair.st.written)
         self.parse_pos["C"] = len(self.pair.ct.written)
         self.parse_pos["S"] = resp.index(b"\r\n\r\n") + 4
-        self.trace.append(dict(ev="open", compress=o["compress"], limit=o["limit"], mask=o["mask"], dlimit=o["dlimit"]))
+        self.trace.append(dict(ev="open", compress=o["compress"], limit=o["limit"], mask=o["mask"], dlimit=o["dlimit"], closer=self.closer))
         self.no_net, self.only_who = True, "S"
         for _ in range(rng.randint(1, 4)):
             self.op_send()
@@ -326,7 +330,7 @@ class Scenario:
             return rng.choice([0, 1, min(2, self.o["limit"][other])])       # never above the receiver's own limit
         return rng.choice(self.lens)
 
-    def op_send(self):
+    def op_send(self, force_sync=None):
         rng = self.rng
         w = rng.choice(["C", "S"])
         if self.only_who:
@@ -352,6 +356,8 @@ class Scenario:
             api = "msg"                 # prepared messages ignore the (benchmark-only) applyMask=False option
         exc = ""
         sync = rng.random() < 0.25
+        if force_sync is not None:
+            sync, api = force_sync, ("msg" if api in ("frames", "stream") else api)
         if api == "stream" and self.o["compress"]:
             dnc = True              # the streaming API never compresses
         # the send event precedes whatever the call writes (multi-call APIs interleave with network steps)
@@ -408,6 +414,42 @@ class Scenario:
         if exc != "":
             self.undelivered[w].remove((mid, binary, payload))
         self.collect()
+
+    def final_close(self):
+        """the closer sends 1-3 more messages that wait in its send queue (sync) and calls sendClose() at once; then the
+        network and the send queues run until both ends are closed.  Returns whether both ends ended up closed."""
+        rng, w = self.rng, self.closer
+        self.only_who, self.no_net = w, True
+        for _ in range(rng.randint(1, 3)):
+            self.op_send(force_sync=rng.random() < 0.8)
+        self.only_who, self.no_net = None, False
+        self.trace.append(dict(ev="lclose", who=w))
+        try:
+            self.pair.proto(w).sendClose()
+        except Exception as e:  # noqa
+            self.problems.append(dict(scenario=-1, problem="sendClose raised %s" % type(e).__name__))
+        self.collect()
+        for _ in range(300):
+            fw.pump()
+            moved = 0
+            for to in ("S", "C"):
+                src = self.pair.ct if to == "S" else self.pair.st
+                buf = src.unread()
+                if buf:
+                    k = rng.choice(self.boundaries(buf)) if rng.random() < 0.5 else len(buf)
+                    moved += self.pair.deliver(to, k)
+            self.collect()
+            quiet = not moved and not fw.pump() and not self.pair.ct.unread() and not self.pair.st.unread()
+            if quiet and (self.pair.st.dropped or self.pair.ct.dropped):
+                # the TCP connection goes down once everything written has been read
+                self.pair.lose("S")
+                self.pair.lose("C")
+                self.collect()
+                break
+            if quiet:
+                break
+        self.collect()
+        return self.pair.s.state == WSP.STATE_CLOSED and self.pair.c.state == WSP.STATE_CLOSED
 
     def boundaries(self, buf):
         """interesting cut positions in an unread buffer"""
@@ -470,6 +512,8 @@ class Scenario:
                 break
         self.collect()
         ok_state = self.pair.s.state == WSP.STATE_OPEN and self.pair.c.state == WSP.STATE_OPEN
+        if ok_state and self.closer:
+            ok_state = self.final_close()
         if not ok_state:
             self.trace.append(dict(ev="closed", at="?", clean=False, code=0))
         self.trace.append(dict(ev="end"))
